@@ -8770,6 +8770,11 @@ tsk_ibd_finder_init(tsk_ibd_finder_t *self, const tsk_table_collection_t *tables
         ret = tsk_trace_error(TSK_ERR_BAD_PARAM_VALUE);
         goto out;
     }
+    /* The edges are followed by the node IDs they store */
+    ret = (int) tsk_table_collection_check_integrity(tables, 0);
+    if (ret != 0) {
+        goto out;
+    }
 
     self->tables = tables;
     self->result = result;
